@@ -118,27 +118,6 @@ theorem weighted_mean_raw (f : Formula) (o : Opts) (t : Dist Rat) (p d m : Rat)
     rw [e]
     simpa [total, moment] using hM
 
-/-- the scaling step multiplies every integral by one constant -/
-theorem scale_const (d out : Dist Rat) (a : Rat) (s : Bool) (h : scaleAbundances d a s none = .ok out) :
-    ∃ c : Rat, ∀ g : Rat → Rat, integral out g = c * integral d g := by
-  cases s with
-  | false =>
-    have := scaleAbundances_max d out a h
-    subst this
-    exact ⟨a, fun g => integral_scale d a g⟩
-  | true =>
-    unfold scaleAbundances at h
-    simp only [if_true] at h
-    by_cases ht : sumAb d = 0
-    · simp only [ht, if_true] at h
-      cases d with
-      | nil => simp [Except.map] at h; subst h; exact ⟨0, fun g => by simp⟩
-      | cons q r => simp [Except.map] at h
-    · simp only [ht, if_false, Except.map, Except.ok.injEq] at h
-      subst h
-      refine ⟨a / sumAb d, fun g => ?_⟩
-      rw [integral_scale, integral_div]; ring
-
 /-- **weighted mean = average mass** (mass view): un-pruned, un-rounded, for elements whose isotope abundances sum to 1,
 `Σ mass·abundance = (Σ abundance) · (Σ count·Σ_iso mass·abundance + delta_mass + particle_mass_offset)` for the
 returned pattern, whatever `distribution_abundance` / `is_abundance_sum`.  For integer compositions `delta_mass = 0`
@@ -189,5 +168,214 @@ theorem weighted_mean_eq_average (f : Formula) (o : Opts) (t : Dist Rat) (p d m 
     rw [hc, hW]
   rw [hmom, hsum, hT, hM]
   ring
+
+/-- **lightest_peak (element loop)**: un-pruned and un-rounded, the smallest key of the distribution after the element
+loop is `Σ count · (smallest isotope key of the element)` and it is attained.  `μ` is any function giving the smallest key of
+each isotope list: for the mass view of C,H,N,O,S,P this is the monoisotopic mass (`lightest_is_monoisotopic_CHNOSP`), so the
+lightest peak sits at the monoisotopic mass of the composition. -/
+theorem lightest_peak_raw (f : Formula) (o : Opts) (t : Dist Rat) (p d m : Rat)
+    (hraw : rawDistribution f o = .ok (t, p, d, m))
+    (hfl : o.floor = none) (hmi : o.maxIsotopes = none) (hct : o.convMinAbundanceThreshold = none)
+    (hres : o.resolution = none) :
+    ∃ L, resolve o (cleanFormula f) = some L ∧
+      ∀ μ : Dist Rat → Rat, (∀ x ∈ L, IsMin x.1 (μ x.1)) → IsMin t (lightSum L μ) := by
+  obtain ⟨L, hL, ht, _⟩ := rawDistribution_ok f o t p d m hraw
+  refine ⟨L, hL, fun μ hμ => ?_⟩
+  rw [ht, hfl, hmi, hct, hres]
+  have := isMin_convolveList μ L [((0 : Rat), 1)] 0 (listPos_of_resolve o _ L hL) hμ allPos_start
+    ⟨⟨(0, 1), List.mem_cons_self .., rfl⟩, by intro q hq; simp at hq; subst hq; exact le_refl _⟩
+  have e : roundOpt none = id := rfl
+  simpa [e] using this
+
+/-- **lightest_peak** (mass view, returned pattern): un-pruned, un-rounded, the lightest returned peak sits at
+`Σ count·(lightest isotope mass) + delta_mass + particle_mass_offset`. -/
+theorem lightest_peak (f : Formula) (o : Opts) (t : Dist Rat) (p d m : Rat) (out : Dist Rat)
+    (hraw : rawDistribution f o = .ok (t, p, d, m)) (hfin : finishDistribution o t p d m = .ok out)
+    (hfl : o.floor = none) (hmi : o.maxIsotopes = none) (hct : o.convMinAbundanceThreshold = none)
+    (hmt : o.minAbundanceThreshold = none) (hres : o.resolution = none) (hneu : o.useNeutronCount = false)
+    (hp : o.precision = none) :
+    ∃ L, resolve o (cleanFormula f) = some L ∧
+      ∀ μ : Dist Rat → Rat, (∀ x ∈ L, IsMin x.1 (μ x.1)) → IsMin out (lightSum L μ + d + p) := by
+  obtain ⟨L, hL, h1⟩ := lightest_peak_raw f o t p d m hraw hfl hmi hct hres
+  refine ⟨L, hL, fun μ hμ => ?_⟩
+  obtain ⟨⟨q0, hq0, e0⟩, hle⟩ := h1 μ hμ
+  obtain ⟨L', hL', ht, _⟩ := rawDistribution_ok f o t p d m hraw
+  have hpos : AllPos t := ht ▸ allPos_convolveList _ _ _ _ L' _ (listPos_of_resolve o _ L' hL') allPos_start
+  obtain ⟨mx, hmx, hmx0, hsc⟩ := finish_ok o t p d m out hfin
+  rw [hp] at hsc
+  have hkeys := scaleAbundances_keys _ out _ _ hsc
+  obtain ⟨⟨q, hq, hqm⟩, _⟩ := maxAb_spec _ mx hmx
+  have hmxpos : 0 < mx := hqm ▸ hpos q hq
+  have hshift : ∀ x, shiftFn o p d m x = x + d + p := by
+    intro x
+    unfold shiftFn
+    by_cases h1 : d = 0 <;> by_cases h2 : p = 0 <;> simp [hneu, h1, h2]
+  have hnorm : normalized o t mx = (sortByKey t).map (fun q => (q.1, q.2 / mx)) := by
+    unfold normalized
+    rw [List.filter_eq_self.2]
+    intro a ha
+    simp only [hmt, Option.getD_none, decide_eq_true_eq]
+    exact le_of_lt (div_pos (hpos a ((sortByKey_perm t).mem_iff.1 ha)) hmxpos)
+  have hk : out.map (·.1) = (sortByKey t).map (fun q => q.1 + d + p) := by
+    rw [hkeys, hnorm]
+    simp [List.map_map, Function.comp_def, hshift]
+  constructor
+  · have : lightSum L μ + d + p ∈ out.map (·.1) := by
+      rw [hk]
+      exact List.mem_map.2 ⟨q0, (sortByKey_perm t).mem_iff.2 hq0, by rw [e0]⟩
+    obtain ⟨r, hr, hre⟩ := List.mem_map.1 this
+    exact ⟨r, hr, hre⟩
+  · intro r hr
+    have : r.1 ∈ out.map (·.1) := List.mem_map.2 ⟨r, hr, rfl⟩
+    rw [hk] at this
+    obtain ⟨s, hs, hse⟩ := List.mem_map.1 this
+    have := hle s ((sortByKey_perm t).mem_iff.1 hs)
+    rw [← hse]; linarith
+
+/-! ## the convolution as an operation on key-merged distributions
+
+Two distributions are "equal after key-merge" when they integrate every function of the key to the same value (taking
+indicator functions: the same abundance at every key).  `κ` is any key type with an addition (masses, neutron offsets,
+pairs of both). -/
+
+/-- **conv_comm** -/
+theorem conv_comm {κ : Type} [DecidableEq κ] [Add κ] (hcomm : ∀ a b : κ, a + b = b + a) (d1 d2 : Dist κ) (g : κ → Rat) :
+    integral (convolve id none none d1 d2) g = integral (convolve id none none d2 d1) g := by
+  rw [integral_convolve id none d1 d2 g (allKept_none _ _), integral_convolve id none d2 d1 g (allKept_none _ _),
+      integral_swap]
+  simp only [id, hcomm]
+
+/-- **conv_assoc** -/
+theorem conv_assoc {κ : Type} [DecidableEq κ] [Add κ] (hassoc : ∀ a b c : κ, a + b + c = a + (b + c))
+    (d1 d2 d3 : Dist κ) (g : κ → Rat) :
+    integral (convolve id none none (convolve id none none d1 d2) d3) g =
+    integral (convolve id none none d1 (convolve id none none d2 d3)) g := by
+  rw [integral_convolve id none _ d3 g (allKept_none _ _),
+      integral_convolve id none d1 d2 _ (allKept_none _ _),
+      integral_convolve id none d1 _ g (allKept_none _ _)]
+  apply integral_congr
+  intro q1 _
+  rw [integral_convolve id none d2 d3 _ (allKept_none _ _)]
+  simp only [id, hassoc]
+
+/-- **conv_pushforward**: binning the keys by an additive map commutes with convolution (after key-merge).  With
+`φ = nominal neutron offset` on joint (mass, offset) keys this says that the neutron-offset view is the binned mass view. -/
+theorem conv_pushforward {κ κ₂ : Type} [DecidableEq κ] [Add κ] [DecidableEq κ₂] [Add κ₂] (φ : κ → κ₂)
+    (hφ : ∀ a b, φ (a + b) = φ a + φ b) (d1 d2 : Dist κ) (g : κ₂ → Rat) :
+    integral (pushforward φ (convolve id none none d1 d2)) g =
+    integral (convolve id none none (pushforward φ d1) (pushforward φ d2)) g := by
+  rw [integral_pushforward, integral_convolve id none d1 d2 _ (allKept_none _ _),
+      integral_convolve id none _ _ g (allKept_none _ _), integral_pushforward]
+  apply integral_congr
+  intro q1 _
+  rw [integral_pushforward]
+  simp only [id, hφ]
+
+/-- **merge_adds**: `merge_isotopic_distributions` adds abundances at equal masses: the merged pattern integrates every
+function of the mass to the sum of the integrals of its inputs (indicator functions: abundance at a mass = sum of the
+input abundances at that mass), and it is sorted by mass. -/
+theorem merge_adds (ds : List (Dist Rat)) (g : Rat → Rat) :
+    integral (mergeDistributions ds none) g = sumIntegrals ds g ∧
+    (mergeDistributions ds none).Pairwise (fun a b => a.1 ≤ b.1) := by
+  constructor
+  · unfold mergeDistributions
+    rw [integral_perm (sortByKey_perm _), integral_mergeLoop]
+    simp
+  · exact sortByKey_sorted _
+
+/-! ## facts about the generated NIST table (`decide`, no axioms) -/
+
+def keyC : Key := [67]
+def keyH : Key := [72]
+def keyN : Key := [78]
+def keyO : Key := [79]
+def keyS : Key := [83]
+def keyP : Key := [80]
+def keySe : Key := [83, 101]
+def keyCl : Key := [67, 108]
+def keyBr : Key := [66, 114]
+def keyFe : Key := [70, 101]
+
+/-- abundance numerators of an element sum to the scale (abundances sum to 1) -/
+def abSumOk (k : Key) : Bool :=
+  match lookupEntry k with
+  | some e => (e.2.2.map (·.2.2)).sum == abScale
+  | none => false
+
+/-- **abundances_sum_to_one**: for C,H,N,O,S,P,Se,Cl,Br,Fe the isotope abundances of the source table sum to exactly 1 -/
+theorem abundances_sum_to_one :
+    ∀ k ∈ [keyC, keyH, keyN, keyO, keyS, keyP, keySe, keyCl, keyBr, keyFe], abSumOk k = true := by decide +kernel
+
+/-- the first (most abundant = "monoisotopic") isotope is the lightest one -/
+def lightestFirst (k : Key) : Bool :=
+  match lookupEntry k with
+  | some e => (match e.2.2 with
+    | i0 :: _ => i0.2.1 == e.2.1 && e.2.2.all (fun i => decide (e.2.1 ≤ i.2.1) && decide (i0.1 ≤ i.1))
+    | [] => false)
+  | none => false
+
+/-- **lightest_is_monoisotopic_CHNOSP**: for C,H,N,O,S,P the monoisotopic (most abundant) isotope is the lightest, in mass
+and in mass number; for Se, Cl(!), Br, Fe it is checked to be so only for Cl and Br -/
+theorem lightest_is_monoisotopic_CHNOSP :
+    (∀ k ∈ [keyC, keyH, keyN, keyO, keyS, keyP, keyCl, keyBr], lightestFirst k = true) ∧
+    lightestFirst keySe = false ∧ lightestFirst keyFe = false := by decide +kernel
+
+/-- every isotope abundance in the table is positive and every element's isotope keys (mass numbers) are distinct -/
+theorem table_wellformed :
+    (∀ e ∈ table, ∀ i ∈ e.2.2, 0 < i.2.2) ∧ (∀ e ∈ table, (e.2.2.map (·.1)).Nodup) := by decide +kernel
+
+/-! ## tying the abstract hypotheses to the table -/
+
+/-- **normalised_elements**: in the mass view the isotope abundances of C,H,N,O,S,P,Se,Cl,Br,Fe sum to 1 as rationals — the
+hypothesis of `weighted_mean_raw` / `weighted_mean_eq_average` holds for every composition over these elements. -/
+theorem normalised_elements (k : Key) (hk : k ∈ [keyC, keyH, keyN, keyO, keyS, keyP, keySe, keyCl, keyBr, keyFe])
+    (e : Entry) (he : lookupEntry k = some e) : total (massIsotopes e) = 1 := by
+  have h := abundances_sum_to_one k hk
+  unfold abSumOk at h
+  rw [he] at h
+  simp only [beq_iff_eq] at h
+  rw [total_massIsotopes, h]
+  unfold abScale; norm_num
+
+/-- **mean_is_average_mass**: for every composition over C,H,N,O,S,P,Se,Cl,Br,Fe (any counts, integer or fractional, any
+e/p/n entries), un-pruned and un-rounded, the abundance-weighted mean of the returned mass-view pattern is
+`Σ count·(average atomic mass) + delta_mass + particle_mass_offset`. -/
+theorem mean_is_average_mass (f : Formula) (o : Opts) (t : Dist Rat) (p d m : Rat) (out : Dist Rat)
+    (hraw : rawDistribution f o = .ok (t, p, d, m)) (hfin : finishDistribution o t p d m = .ok out)
+    (hfl : o.floor = none) (hmi : o.maxIsotopes = none) (hct : o.convMinAbundanceThreshold = none)
+    (hmt : o.minAbundanceThreshold = none) (hres : o.resolution = none) (hneu : o.useNeutronCount = false)
+    (hp : o.precision = none)
+    (hel : ∀ q ∈ cleanFormula f, q.1 ∈ [keyC, keyH, keyN, keyO, keyS, keyP, keySe, keyCl, keyBr, keyFe]) :
+    ∃ L, resolve o (cleanFormula f) = some L ∧ moment out = sumAb out * (momentSum L + d + p) := by
+  obtain ⟨L, hL, h⟩ := weighted_mean_eq_average f o t p d m out hraw hfin hfl hmi hct hmt hres hneu hp
+  refine ⟨L, hL, h ?_⟩
+  intro x hx
+  obtain ⟨q, hq, e, he, hxe⟩ := resolve_mem o _ L hL x hx
+  rw [hxe]
+  unfold isosOf
+  simp only [hneu]
+  exact normalised_elements q.1 (hel q hq) e he
+
+/-! ## non-vacuity: concrete inputs satisfying the hypotheses -/
+
+/-- C2 H4 e-1 (the witness of the repaired particle-offset defect) and C2.5 H4 S1 p1 -/
+def exF1 : Formula := [(keyC, .int 2), (keyH, .int 4), (eKey, .int (-1))]
+def exF2 : Formula := [(keyC, .flt (5 / 2)), (keyH, .int 4), (keyS, .int 1), (pKey, .int 1)]
+def exO : Opts := { floor := none, resolution := none }
+
+def rawOk (f : Formula) (o : Opts) : Bool :=
+  match rawDistribution f o with
+  | .ok (t, _, _, _) => !t.isEmpty
+  | .error _ => false
+
+example : rawOk exF1 exO = true ∧ rawOk exF2 exO = true ∧ rawOk exF1 {} = true := by decide +kernel
+example : ∀ q ∈ cleanFormula exF2, q.1 ∈ [keyC, keyH, keyN, keyO, keyS, keyP, keySe, keyCl, keyBr, keyFe] := by decide +kernel
+example : (cleanFormula exF2, particleOf exF1) = ([(keyC, 2), (keyH, 4), (keyS, 1)], -electronMass) := by decide +kernel
+/-- the un-normalised distribution of C2 has the three peaks 24, 25.00335483507, 26.00670967014 with total abundance 1 -/
+example : (match rawDistribution [(keyC, .int 2)] exO with
+    | .ok (t, _, _, _) => t.map (·.1) == [24, 2500335483507 / 100000000000, 1300335483507 / 50000000000] && sumAb t == 1
+    | .error _ => false) = true := by decide +kernel
+example : integral (convolve id none none [((1 : Rat), 1 / 2), (2, 1 / 2)] [((1 : Rat), 1 / 2), (2, 1 / 2)]) (fun k => if k = 3 then 1 else 0) = 1 / 2 := by
+  decide +kernel
 
 end C14
